@@ -24,7 +24,7 @@ Definition api_mpn_mul_basecase : api := fun a =>
   let u := arglimbs a 0 1 in let v := if argz a 4 =? 1 then u else arglimbs a 2 3 in
   let p := mul_basecase u v in [TZ (eval p); TZ (last p 0)].
 (* value-level Karatsuba with the pinned threshold; fuel 64 exceeds any recursion depth *)
-Definition kara_thr : Z := 17.
+Definition kara_thr : Z := thr_MUL_KARATSUBA_THRESHOLD.
 Definition api_mpn_kara_mul_n : api := fun a =>
   let n := argz a 0 in let p := kara_mul 64 kara_thr n (argz a 1) (argv2 a) in [TZ p; TZ (p / B ^ (2 * n - 1))].
 
